@@ -88,7 +88,7 @@ func (a *HMACAuth) Verify(r *http.Request, requestPath string, body []byte) erro
 	} else {
 		a.nonce.setNow(now)
 	}
-	if !a.nonce.seenOnce(nonce, t.Add(a.Tolerance)) {
+	if !a.nonce.seenOnce(nonce, t, a.Tolerance) {
 		return ErrUnauthorized
 	}
 
@@ -162,7 +162,12 @@ func (c *nonceCache) setNow(now func() time.Time) {
 	c.mu.Unlock()
 }
 
-func (c *nonceCache) seenOnce(nonce string, expiresAt time.Time) bool {
+// seenOnce records nonce with its signed timestamp and reports whether it is
+// new. An entry stays in force for as long as the timestamp tolerance check
+// can still accept its signed timestamp, i.e. up to and including
+// signedAt+tolerance under the tolerance passed now (which may have changed
+// through a reload since the entry was recorded).
+func (c *nonceCache) seenOnce(nonce string, signedAt time.Time, tolerance time.Duration) bool {
 	if nonce == "" {
 		return false
 	}
@@ -172,15 +177,15 @@ func (c *nonceCache) seenOnce(nonce string, expiresAt time.Time) bool {
 
 	// Opportunistic cleanup.
 	now := c.now().UTC()
-	for k, exp := range c.m {
-		if !now.Before(exp) {
+	for k, at := range c.m {
+		if now.After(at.Add(tolerance)) {
 			delete(c.m, k)
 		}
 	}
 
-	if exp, ok := c.m[nonce]; ok && now.Before(exp) {
+	if at, ok := c.m[nonce]; ok && !now.After(at.Add(tolerance)) {
 		return false
 	}
-	c.m[nonce] = expiresAt.UTC()
+	c.m[nonce] = signedAt.UTC()
 	return true
 }
